@@ -13,7 +13,7 @@
 //! plus `real`: chains over the real chainable / arithmetic builtins, compared with the call-form
 //! rendering of the tree the model predicts, and `tables`: the generated registration table against
 //! the precedences the running interpreter really carries.
-use noulith::{Assoc, Builtin, ChainEvaluator, Func, NErr, NRes, Obj, Precedence, REnv, Rc};
+use noulith::{Assoc, Builtin, ChainEvaluator, Func, NErr, NRes, Obj, ObjType, Precedence, REnv, Rc};
 use std::any::Any;
 use std::cell::RefCell;
 use std::panic::{catch_unwind, AssertUnwindSafe};
@@ -739,6 +739,19 @@ fn main() {
                     for word in src.split(|c: char| !c.is_alphanumeric()) {
                         if let Some(o) = parse_pool_id(word) {
                             w.ensure(&o, None);
+                        } else if let Some(o) = word.strip_prefix('o').and_then(parse_pool_id) {
+                            // pristine copy used by the effectful cases
+                            if w.registered.insert(word.to_string()) {
+                                w.interp
+                                    .env
+                                    .borrow_mut()
+                                    .insert(
+                                        word.to_string(),
+                                        ObjType::Any,
+                                        Obj::Func(Func::Builtin(Rc::new(o.treeop())), Precedence(0.0, assoc_of(o.rassoc))),
+                                    )
+                                    .ok();
+                            }
                         }
                     }
                     log_take();
@@ -950,6 +963,135 @@ fn main() {
         requests.push(req);
     }
 
+    // ---- 3b. operands with EFFECTS on the operators of their own chain ---------------------------
+    // (reassign an operator variable, set its ::precedence, swap two operators / two precedences,
+    // between repeated and between different operators): every operator must be looked up at its
+    // position, after the operand to its left has been evaluated
+    {
+        let mut wx = World::new();
+        let n_eff = if thorough { 80_000 } else { 5_000 };
+        for ci in 0..n_eff {
+            let k = 2 + rng.below(2) as usize;
+            let mut vars = random_ops(&mut rng, k, false);
+            for (j, v) in vars.iter_mut().enumerate() {
+                v.pos = j;
+                v.prec = if rng.chance(1, 12) { None } else { Some(rng.below(5) as i64) };
+            }
+            let n = if ci % 9 == 0 { 1 } else { 2 + rng.below(5) as usize };
+            let section = ci % 5 == 4;
+            // operator positions: runs of one identifier are the interesting shape
+            let mut opvars: Vec<usize> = vec![];
+            for i in 0..n {
+                if i > 0 && rng.chance(3, 5) {
+                    opvars.push(opvars[i - 1]);
+                } else {
+                    opvars.push(rng.below(k as u64) as usize);
+                }
+            }
+            let name = |j: usize| vars[j].id();
+            let mut prefix = String::new();
+            for v in &vars {
+                wx.ensure(v, None);
+                let pristine = format!("o{}", v.id());
+                if !wx.registered.contains(&pristine) {
+                    wx.registered.insert(pristine.clone());
+                    wx.interp
+                        .env
+                        .borrow_mut()
+                        .insert(
+                            pristine.clone(),
+                            ObjType::Any,
+                            Obj::Func(Func::Builtin(Rc::new(v.treeop())), Precedence(0.0, assoc_of(v.rassoc))),
+                        )
+                        .ok();
+                }
+                let p = match v.prec {
+                    None => "(0.0/0.0)".to_string(),
+                    Some(r) => r.to_string(),
+                };
+                prefix.push_str(&format!("{} = {}; {}::precedence = {}; ", v.id(), pristine, v.id(), p));
+            }
+            let mut toks: Vec<String> = vec![];
+            let mut chain = String::new();
+            let mut holes: Vec<usize> = vec![];
+            for i in 0..=n {
+                if i > 0 {
+                    let x = name(opvars[i - 1]);
+                    if rng.chance(1, 4) {
+                        chain.push_str(&format!(" `lgo({}, {})` ", 2 * i - 1, x));
+                        toks.push(format!("W:{}", x));
+                    } else {
+                        chain.push_str(&format!(" {} ", x));
+                        toks.push(format!("V:{}", x));
+                    }
+                }
+                // the operand: plain, with an effect, or a hole
+                let effect = rng.chance(1, 2);
+                if section && !effect && rng.chance(1, 2) {
+                    chain.push('_');
+                    toks.push("U".to_string());
+                    holes.push(i);
+                } else if effect {
+                    // prefer targeting the operator that stands to the right of this operand
+                    let x = if i < n && rng.chance(2, 3) { opvars[i] } else { rng.below(k as u64) as usize };
+                    let mut y = rng.below(k as u64) as usize;
+                    if y == x {
+                        y = (x + 1) % k;
+                    }
+                    let (stmt, tok) = match rng.below(5) {
+                        0 | 1 => {
+                            let r = rng.below(7) as i64 - 1;
+                            if rng.chance(1, 10) {
+                                (format!("{}::precedence = (0.0/0.0)", name(x)), format!("p-{}-n", name(x)))
+                            } else if r < 0 {
+                                (format!("{}::precedence = (0-1)", name(x)), format!("p-{}--1", name(x)))
+                            } else {
+                                (format!("{}::precedence = {}", name(x), r), format!("p-{}-{}", name(x), r))
+                            }
+                        }
+                        2 => (format!("{} = {}", name(x), name(y)), format!("a-{}-{}", name(x), name(y))),
+                        3 => (format!("swap {}, {}", name(x), name(y)), format!("w-{}-{}", name(x), name(y))),
+                        _ => (
+                            format!("swap {}::precedence, {}::precedence", name(x), name(y)),
+                            format!("q-{}-{}", name(x), name(y)),
+                        ),
+                    };
+                    chain.push_str(&format!("({}; lg({}))", stmt, i));
+                    toks.push(format!("S:{}:{}", i, tok));
+                } else {
+                    chain.push_str(&format!("lg({})", i));
+                    toks.push(format!("E:{}", i));
+                }
+            }
+            let (src, nargs) = if section && !holes.is_empty() {
+                for h in &holes {
+                    toks.push(format!("A:{}", h));
+                }
+                (
+                    format!("{}({})({})", prefix, chain, holes.iter().map(|h| format!("lg({})", h)).collect::<Vec<_>>().join(", ")),
+                    holes.len().to_string(),
+                )
+            } else {
+                (format!("{}{}", prefix, chain), "-".to_string())
+            };
+            let mut envt = vec![];
+            for v in &vars {
+                envt.push(v.id());
+                envt.push(v.token());
+            }
+            let req = format!("srcs {} {} {} {}", nargs, k, envt.join(" "), toks.join(" "));
+            log_take();
+            let out = wx.interp.eval(&src);
+            rust.push(outcome_with_log(&out, true));
+            let kname = if nargs == "-" { "srcs:chain" } else { "srcs:section" };
+            keys.push(kname.into());
+            rep.arm(&format!("{}:n={}", kname, n));
+            inputs.push(format!("src: {}\nrequest: {}", src, req));
+            nontrivial.push(n >= 2);
+            requests.push(req);
+        }
+    }
+
     // ---- the model ---------------------------------------------------------------------------------
     let resp = run_driver(&args.driver, &requests);
     for i in 0..requests.len() {
@@ -979,6 +1121,10 @@ fn main() {
         (vec!["^", "^"], vec!["2", "3", "2"]),
         (vec!["<<", "+"], vec!["1", "2", "3"]),
         (vec![".+", ".+"], vec!["1", "2", "[3]"]),
+        (vec!["<", "<", "<="], vec!["1", "2", "3", "3"]),
+        (vec!["==", "==", "!="], vec!["1", "1", "1", "2"]),
+        (vec![">", ">", "==", "<"], vec!["3", "2", "1", "1", "5"]),
+        (vec!["<", "<", "+", "<="], vec!["1", "2", "1", "2", "3"]),
     ] {
         real_cases.push(RealCase {
             ops: ops.iter().map(|s| s.to_string()).collect(),
